@@ -204,6 +204,25 @@ CLAIMED['C04'] = dict(
    note=WIRE_NOTE, technique="Coq proof (provenance and locality on the wiring model, list lemmas for the default-proposal order) + vm_compute correspondence + subprocess matrix",
    ref="DESIGN.md section 3, C04")
 
+LAW_NOTE = NUM_NOTE + ("The law of a jump is formalised as a push-forward: a generator draw is mapped to the proposed point; a rejection loop "
+            "returns the first accepted draw, whose law is the conditional one (series lemma). Phi is an abstract strictly increasing cdf with "
+            "Phi(-x) = 1 - Phi(x); that numpy's draws follow their documented laws is a premise. Solid-angle densities are with respect to the "
+            "solid-angle measure. ")
+CLAIMED['C02'] = dict(
+   text="Theorems over the reals about the single-definition densities and jump maps (Dens.v): the draws that floorceil / round-half-even map "
+        "to a displacement k form the cell whose mass NormalDiscrete reports (symmetric in k); BoundedDiscrete (successive on and off) "
+        "reports cell mass over the mass of the acceptance region of its rejection loop, the cells of all reachable integers tile that "
+        "region, and the first accepted draw has the conditional law (geometric series); BoundedNormal reports the conditional normal "
+        "density on its bounds, zero outside, and its Hastings factor is the ratio of acceptance masses; bounded eigenvector likewise along "
+        "the segment; Normal, Angular (for all angles and widths, via the wrapped signed distance), Eigenvector and the von Mises-Fisher "
+        "density are symmetric; the solid-angle polar angle is the exact inverse cdf and the frame change is a rotation; with one cdf "
+        "dictionary per parameter every query sequence returns the uncached value (the shared dictionary is refuted). The float instance of "
+        "the same definitions runs against real logpdf()/jump() calls of all families in as-built, adapted, reset and std-reassigned states; "
+        "a failing input is searched by feeding jump() a quantile grid (push-forward law vs reported density, Hastings factor vs law ratio).",
+   note=LAW_NOTE + "Birth densities, the eigen-direction choice and the bounded eigenvector's box intersections are tied by correspondence only.",
+   technique="Coq proof over Reals (interval arithmetic of rounding cells with Flocq, telescoping sums, Coquelicot series, trigonometric identities) + vm_compute correspondence of the float instance",
+   ref="DESIGN.md section 3, C02")
+
 PENDING_REASON = "not yet claimed: model/theorems for this property are still being built (see DESIGN.md section 3); nothing is asserted about it"
 
 def main():
